@@ -180,7 +180,7 @@ class DoctestParser:
         # If all lines begin with the same indentation, then strip it.
         min_indent = _min_indentation(string)
         if min_indent > 0:
-            string = '\n'.join([ln[min_indent:] for ln in string.splitlines()])
+            string = '\n'.join([ln[min_indent:] for ln in _split_lines(string)])
 
         labeled_lines = None
         grouped_lines = None
@@ -713,7 +713,7 @@ class DoctestParser:
         #     want -> [want, text, dsrc]
         prev_state = TEXT
         curr_state = None
-        line_iter = enumerate(string.splitlines())
+        line_iter = enumerate(_split_lines(string))
 
         for line_idx, line in line_iter:
             match = INDENT_RE.search(line)
@@ -829,6 +829,26 @@ class DoctestParser:
             print('</FINISH LABELED LINES>')
 
         return labeled_lines
+
+
+def _split_lines(string):
+    """
+    Split text into lines where a line feed ends a line (and only there).
+
+    Unlike :func:`str.splitlines` a form feed, a lone carriage return or a
+    Unicode line separator stays inside its line, so that the lines of a
+    docstring are the lines of the file it was written in.
+
+    Example:
+        >>> _split_lines('a\\x0cb\\n\\nc\\n')
+        ['a\\x0cb', '', 'c']
+        >>> _split_lines('')
+        []
+    """
+    lines = string.split('\n')
+    if lines and lines[-1] == '':
+        lines.pop()
+    return lines
 
 
 def _min_indentation(s):
